@@ -42,7 +42,7 @@ CONFIGS = {
         ('N3-NS', dict(N=3, Kinds={"ea", "en", "em", "xn"}, RootCfg="R1",
                        Axes={"self", "child", "attribute", "parent", "descendant", "descendant-or-self"},
                        Tests={"node()", "*", "a", "p:a", "p:*", "q:*", "*:a"}, Preds=set(), ParenPreds=set(), Preds2=set(), DocSibs=False,
-                       NsTests={"*", "p", "xml", "node()"})),
+                       NsTests={"*", "p", "r", "xml", "node()"})),
         # lxml documents with comments / PIs before and after the document element
         ('N3-DS', dict(N=3, Kinds={"ea", "eb", "c", "p", "t"}, RootCfg="R1", Axes=set(AXES),
                        Tests={"node()", "*", "comment()"}, Preds={"1"},
@@ -54,7 +54,7 @@ CONFIGS = {
         # E/(axis::test)[n]: a parenthesised step inside a path is numbered in document order (2.0+ parsers)
         ('N3-PS', dict(N=3, Kinds={"ea", "eb", "t"}, RootCfg="R1", Axes=set(AXES) - {"attribute"},
                        Tests={"node()", "*"}, Preds=set(), ParenPreds={"step:1", "step:2", "step:last()"},
-                       Preds2=set(), DocSibs=False, NsTests=set())),
+                       Preds2={"position()<3", "b"}, DocSibs=False, NsTests=set())),
         # XPath 2.0 kind tests, processing-instruction with a target, 3.0 braced URI literals
         ('N3-KT', dict(N=3, Kinds={"ea", "eb", "en", "t", "p", "xa", "xn"}, RootCfg="R1",
                        Axes={"self", "child", "attribute", "parent", "ancestor-or-self", "descendant", "descendant-or-self",
@@ -116,15 +116,23 @@ def _parsers():
 
 
 XML_NS = 'http://www.w3.org/XML/1998/namespace'
-NS_URI = dict(NS, xml=XML_NS)
+NS_URI = dict(NS, xml=XML_NS, r='urn:x')
 
 
 DNS_MARK = '\u2063'      # invisible separator appended to a path text: evaluate with the default element namespace urn:x
 NS_DEFAULT = dict(NS, **{'': 'urn:x'})
 
 
+NSX_MARK = '\u2064'      # invisible plus: evaluate with the namespace map that binds a second prefix r to urn:x
+NS3 = dict(NS, r='urn:x')
+
+
 def ns_for(text: str):
-    return (NS_DEFAULT, text[:-1]) if text.endswith(DNS_MARK) else (NS, text)
+    if text.endswith(DNS_MARK):
+        return NS_DEFAULT, text[:-1]
+    if text.endswith(NSX_MARK):
+        return NS3, text[:-1]
+    return NS, text
 
 
 V2_MARKS = ('/(', '*:', 'element(', 'attribute(', 'document-node(', 'processing-instruction(p', 'processing-instruction(z')
@@ -150,6 +158,8 @@ def step_text(action: str, args: tuple) -> str:
         return f'namespace::{args[0]}/parent::node()'
     if action == 'ParenStep':
         return f'({args[0]}::{args[1]})[{args[2][5:]}]'      # args[2] = "step:<pred>"
+    if action == 'ParenStep2':
+        return f'({args[0]}::{args[1]})[{args[2]}][{args[3]}]'
     if action in ('Step', 'DSlash'):
         return f'{args[0]}::{args[1]}'
     if action in ('StepPred', 'DSlashPred'):
@@ -194,14 +204,16 @@ def extend(prefix: str, action: str, args: tuple, root_cfg: str, last: str | Non
     alts = [prefix]
     if root_cfg == 'R1' and prefix == '/':
         alts.append('')
-    if root_cfg == 'R3' and prefix == '' and action != 'Paren':
+    if root_cfg == 'R3' and prefix == '' and action not in ('Paren', 'Paren2'):
         alts.append('/')   # '/' alone is undefined for a parentless root (XPDY0050 in XDM); '/step' starts at the root
-    s = None if action == 'Paren' else (last if last is not None else step_text(action, args))
+    s = None if action in ('Paren', 'Paren2') else (last if last is not None else step_text(action, args))
     out = []
     for pre in alts:
         if action == 'Paren':
             out.append(f'({pre or "."})[{args[0]}]')
-        elif action in ('Step', 'StepPred', 'StepPred2', 'NsStep', 'NsParent', 'ParenStep'):
+        elif action == 'Paren2':
+            out.append(f'({pre or "."})[{args[0]}][{args[1]}]')
+        elif action in ('Step', 'StepPred', 'StepPred2', 'NsStep', 'NsParent', 'ParenStep', 'ParenStep2'):
             if pre == '':
                 out += [s, './' + s]
             elif pre == '/':
@@ -279,7 +291,7 @@ def ns_eval(doc: Doc, root_cfg: str, version: str, text: str):
         sel = get_selector(version, text)
         if isinstance(sel, Exception):
             raise sel
-        res = sel.select(root, namespaces=NS, **kw)     # (xml.etree has no declarations: the caller's map is in scope)
+        res = sel.select(root, namespaces=ns_for(text)[0], **kw)     # (xml.etree has no declarations: the caller's map is in scope)
     except Exception as e:
         return ('err', type(e).__name__, getattr(e, 'code', None))
     if not isinstance(res, list):
@@ -289,8 +301,9 @@ def ns_eval(doc: Doc, root_cfg: str, version: str, text: str):
 
 
 def lx_eval(doc: Doc, root_cfg: str, text: str):
+    ns, text = ns_for(text)
     try:
-        res = (doc.tree if root_cfg == 'R1' else doc.root).xpath(text, namespaces=NS)
+        res = (doc.tree if root_cfg == 'R1' else doc.root).xpath(text, namespaces={k: v for k, v in ns.items() if k})
     except Exception as e:
         return ('err', type(e).__name__, None)
     return doc.project(res)
@@ -303,7 +316,9 @@ def kinds_of(kind: tuple, nodes) -> str:
 def tree_worker(job):
     """Replay every transition of one tree."""
     (parent, kind, root_cfg, states, init_sid, out_edges, seed, modes_all, dns) = job
-    docs = {'lxml': Doc(parent, kind, 'lxml')}
+    nsx = dns == 'nsx'
+    mark = NSX_MARK if nsx else DNS_MARK
+    docs = {'lxml': Doc(parent, kind, 'lxml', NS3 if nsx else None)}
     if not docs['lxml'].doc_siblings:
         docs['etree'] = Doc(parent, kind, 'etree')      # xml.etree cannot hold document-level siblings
     else:
@@ -330,7 +345,7 @@ def tree_worker(job):
                 # observation: one group of namespace nodes per ELEMENT of the current set (spec: NsObservation)
                 stats['transitions'] += 1
                 t = args[0]
-                prefixes = ['xml', 'p', 'q'] if t in ('*', 'node()') else [t]
+                prefixes = (['xml', 'p', 'q'] + (['r'] if nsx else [])) if t in ('*', 'node()') else [t]
                 n_elems = sum(1 for n in src if n and kind[n - 1] in ('ea', 'eb', 'en', 'em'))
                 exp_pairs = sorted((pf, NS_URI[pf]) for pf in prefixes) * n_elems
                 exp_pairs.sort()
@@ -338,7 +353,7 @@ def tree_worker(job):
                 for text in extend(pre, action, args, root_cfg):
                     if root_cfg == 'R1' and text.startswith('/'):
                         try:
-                            lres = sorted(tuple(x) for x in docs['lxml'].tree.xpath(text, namespaces=NS))
+                            lres = sorted(tuple(x) for x in docs['lxml'].tree.xpath(text, namespaces=NS3 if nsx else NS))
                         except Exception as e:
                             lres = ('err', type(e).__name__)
                         stats['lx_evals'] += 1
@@ -347,7 +362,7 @@ def tree_worker(job):
                                                              spec=exp_pairs, libxml2=lres))
                     for v in versions:
                         for lib in libs:
-                            obs = ns_eval(docs[lib], 'R1elem' if lib == 'lxml-elem' else root_cfg, v, text)
+                            obs = ns_eval(docs[lib], 'R1elem' if lib == 'lxml-elem' else root_cfg, v, text + mark if nsx else text)
                             stats['evaluations'] += 1
                             want = exp_pairs if v == '1.0' else exp_uris
                             if obs != want:
@@ -374,8 +389,8 @@ def tree_worker(job):
             for ab in abbreviations(action, args):
                 texts += extend(pre, action, args, root_cfg, last=ab)[:1]
             edge_ok = True
-            if dns:     # evaluated by parsers whose static context has the default element namespace urn:x
-                texts = [t + DNS_MARK for t in texts]
+            if dns:     # evaluated with another namespace map (default element namespace urn:x / second prefix r)
+                texts = [t + mark for t in texts]
             for ti, text in enumerate(texts):
                 # second oracle: libxml2 (not for fragments: a parentless root has no libxml2 counterpart;
                 # lxml evaluates relative paths of a tree from the root element, so only absolute texts in R1;
@@ -433,7 +448,7 @@ def tree_worker(job):
                 edge_ok = False   # the virtual document is filtered from results: the real state is not observable, so
                                   # such a target is never used as a replay prefix (reported as unreached)
             if edge_ok and dst not in prefix:
-                prefix[dst] = texts[0].rstrip(DNS_MARK)
+                prefix[dst] = texts[0].rstrip(DNS_MARK + NSX_MARK)
                 queue.append(dst)
                 if len(samples) < 2 and len(expected) > 1:
                     samples.append(dict(xml=docs['lxml'].xml(), root=root_cfg, path=prefix[dst], expected_ids=expected))
@@ -660,7 +675,7 @@ def run(chk: core.Check) -> None:
         tree_of = {sid: (st['parent'], st['kind']) for sid, st in g.states.items()}
         for s, d, a, args in g.edges:
             trees[tree_of[s]][2].setdefault(s, []).append((d, a, args))
-        dns = any(t.startswith('dns:') for t in consts['Tests'])
+        dns = 'dns' if any(t.startswith('dns:') for t in consts['Tests']) else 'nsx' if 'r' in consts['NsTests'] else False
         jobs = [(p, k, consts['RootCfg'], sts, init, oe, chk.seed, False, dns)
                 for (p, k), (sts, init, oe) in trees.items()]
         n_edges = len(g.edges)
